@@ -1,7 +1,7 @@
 SPECIFICATION MCSpec
-CONSTANTS Sizes = {1, 2, 3, 4, 5}
-          MaxConsumed = 12
-          MaxGets = 5
+CONSTANTS Sizes = {1, 2, 3, 4, 5, 6}
+          MaxConsumed = 14
+          MaxGets = 6
 INVARIANTS WindowOK WindowData Refines Terminates NoStuck
 CONSTRAINT Bound
 ACTION_CONSTRAINT EdgeOut
